@@ -26,7 +26,8 @@ type DefaultsWorld struct {
 	Insts []any
 }
 
-var defValuePool = []any{1.0, "d", true, nil, []any{1.0, "x"}, map[string]any{"k": 1.0}, map[string]any{}, 0.0, ""}
+var defValuePool = []any{1.0, "d", true, nil, []any{1.0, "x"}, map[string]any{"k": 1.0}, map[string]any{}, 0.0, "",
+	[]any{map[string]any{"h": "x", "p": []any{80.0, 443.0}}}, map[string]any{"k": []any{map[string]any{"z": 1.0}}}, []any{[]any{1.0}, []any{}}}
 
 // genDefSchema generates a subschema over properties with defaults at depth <= d.
 func genDefSchema(c *Ctx, depth int) map[string]any {
@@ -215,6 +216,49 @@ func walkSchemas(doc map[string]any, f func(s map[string]any)) {
 	}
 }
 
+// containersIn collects every map and non-empty slice nested anywhere inside v (through arrays too).
+func containersIn(v any, out *[]any) {
+	switch x := v.(type) {
+	case map[string]any:
+		*out = append(*out, x)
+		for _, k := range sortedKeys(x) {
+			containersIn(x[k], out)
+		}
+	case []any:
+		if len(x) > 0 {
+			*out = append(*out, x)
+		}
+		for _, e := range x {
+			containersIn(e, out)
+		}
+	}
+}
+
+// mutateInPlace changes one container nested in v without replacing it.
+func mutateInPlace(v any, pick int) bool {
+	var cs []any
+	containersIn(v, &cs)
+	if len(cs) == 0 {
+		return false
+	}
+	switch x := cs[pick%len(cs)].(type) {
+	case map[string]any:
+		x["mutated-by-client"] = "x"
+		for _, k := range sortedKeys(x) {
+			if k != "mutated-by-client" {
+				if _, isC := x[k].(map[string]any); !isC {
+					if _, isS := x[k].([]any); !isS {
+						x[k] = "overwritten-by-client"
+					}
+				}
+			}
+		}
+	case []any:
+		x[0] = "overwritten-by-client"
+	}
+	return true
+}
+
 type c15step struct {
 	Kind int // 0 apply, 1 apply again (idempotence), 2 delete key, 3 set key, 4 replace subtree, 5 mutate inserted container, 6 switch instance, 7 validate, 8 mutate an inserted container in place, drop it from the instance, apply the same schema again
 	R    int
@@ -247,6 +291,25 @@ func at(v any, path []string) map[string]any {
 	}
 	m, _ := v.(map[string]any)
 	return m
+}
+
+// insertedPaths lists the key paths that exist in after but not in before (top-most only).
+func insertedPaths(before, after any, prefix []string) [][]string {
+	am, ok := after.(map[string]any)
+	if !ok {
+		return nil
+	}
+	bm, _ := before.(map[string]any)
+	var out [][]string
+	for _, k := range sortedKeys(am) {
+		p := append(append([]string(nil), prefix...), k)
+		if bv, was := bm[k]; !was {
+			out = append(out, p)
+		} else {
+			out = append(out, insertedPaths(bv, am[k], p)...)
+		}
+	}
+	return out
 }
 
 func depthOfInsert(before, after any, d int) int {
@@ -386,15 +449,8 @@ func driveC15(c *Ctx) {
 					continue
 				}
 				p := lastInserted[st.A%len(lastInserted)]
-				if m := at(insts[cur], p); m != nil {
-					m["mutated-by-client"] = "x"
-					for _, k := range sortedKeys(m) {
-						if k != "mutated-by-client" {
-							m[k] = "overwritten-by-client"
-						}
-					}
-				}
 				if parent := at(insts[cur], p[:len(p)-1]); parent != nil {
+					mutateInPlace(parent[p[len(p)-1]], st.B)
 					delete(parent, p[len(p)-1])
 				}
 				c.Probe("mutate-drop-reapply")
@@ -429,19 +485,7 @@ func driveC15(c *Ctx) {
 					}
 				}
 				// remember which containers this application created
-				lastInserted = nil
-				var ap, bp [][]string
-				objectPaths(insts[cur], nil, &ap)
-				objectPaths(before, nil, &bp)
-				was := map[string]bool{}
-				for _, p := range bp {
-					was[fmt.Sprint(p)] = true
-				}
-				for _, p := range ap {
-					if !was[fmt.Sprint(p)] && len(p) > 0 {
-						lastInserted = append(lastInserted, p)
-					}
-				}
+				lastInserted = insertedPaths(before, insts[cur], nil)
 				if st.Kind == 1 {
 					first := typedJSONDeep(insts[cur])
 					holder := insts[cur]
@@ -476,14 +520,8 @@ func driveC15(c *Ctx) {
 				}
 			case 5:
 				if len(lastInserted) > 0 {
-					if m := at(insts[cur], lastInserted[st.A%len(lastInserted)]); m != nil {
-						m["mutated-by-client"] = "x"
-						for _, k := range sortedKeys(m) {
-							if k != "mutated-by-client" && st.B%2 == 0 {
-								delete(m, k)
-								break
-							}
-						}
+					p := lastInserted[st.A%len(lastInserted)]
+					if parent := at(insts[cur], p[:len(p)-1]); parent != nil && mutateInPlace(parent[p[len(p)-1]], st.B) {
 						c.Probe("client-mutated-inserted-container")
 					}
 				}
